@@ -530,6 +530,12 @@ func runC13(c *engine.Ctx) {
 
 	// ---- R15 ----
 	checkRotationOrder(c, "R15")
+
+	// ---- R16 a connection is handed to a listener the registry holds now, not to a memo of a departed group (shared with C06.R13) ----
+	checkFreshLookup(c, "R16")
+
+	// ---- R17 ----
+	checkGroupRemovedOnlyWhenEmpty(c, "R17")
 }
 
 // identityWidth: how many basic values a group identity slot holds — 1 for a basic field, n for a struct of n basic
@@ -704,4 +710,76 @@ func checkRotationOrder(c *engine.Ctx, rule string) {
 		})
 	}
 	c.Floor(n, 1)
+}
+
+// checkGroupRemovedOnlyWhenEmpty (R17, shared with C10.R20): a group object leaves its controller's table only when its
+// last member has left — on a path that found the group empty (HTTPGroup.UnRegister reported true, or the member list
+// has length zero), or inside a removal helper that only the leave functions call. A live group that is dropped from
+// the table keeps its route / port but can no longer be found by UnRegister: the route is never deleted and every
+// identical re-registration is refused.
+func checkGroupRemovedOnlyWhenEmpty(c *engine.Ctx, rule string) {
+	c.Rule(rule, "every delete from a group controller's groups table happens where the group was found empty (UnRegister returned true / len(members) == 0) or in a helper called only from the groups' leave functions (CloseListener)")
+	p := c.P
+	n := 0
+	callers := map[*ssa.Function][]*ssa.Function{}
+	for _, f := range p.RepoFuncs() {
+		f := f
+		engine.ForEachInstr(f, func(in ssa.Instruction) {
+			if call, ok := in.(ssa.CallInstruction); ok {
+				if cf := engine.CalleeFn(call); cf != nil && cf.Blocks != nil {
+					callers[cf] = append(callers[cf], f)
+				}
+			}
+		})
+	}
+	for _, f := range p.RepoFuncs() {
+		if f.Pkg == nil || f.Pkg.Pkg.Path() != engine.ModPath+"/server/group" {
+			continue
+		}
+		f := f
+		engine.ForEachInstr(f, func(in ssa.Instruction) {
+			call, ok := in.(*ssa.Call)
+			if !ok {
+				return
+			}
+			b, ok := call.Call.Value.(*ssa.Builtin)
+			if !ok || b.Name() != "delete" {
+				return
+			}
+			fv, _ := engine.LoadedField(call.Call.Args[0])
+			if fv == nil || fv.Name() != "groups" {
+				return
+			}
+			n++
+			// (a) a removal helper of the leave functions
+			cs := callers[f]
+			onlyLeaves := len(cs) > 0
+			for _, cf := range cs {
+				if cf.Name() != "CloseListener" {
+					onlyLeaves = false
+				}
+			}
+			if onlyLeaves {
+				c.Hold(p.FuncName(f)+">delete-group", in.Pos(), len(cs), nil, "removal helper called only by CloseListener (which C13.R3 checks for emptiness)")
+				return
+			}
+			// (b) emptiness established on the path
+			c.AllPaths(p.FuncName(f)+">delete-group", engine.PathCheck{Fn: f, Sink: engine.Is(in), Pred: func(st *engine.PathState) string {
+				for _, l := range st.Lits {
+					if _, ok := lenIsZero(l); ok {
+						return ""
+					}
+					if l.Op == token.ILLEGAL && l.Val {
+						if cl, _ := engine.ResultOfCall(l.X); cl != nil {
+							if o := engine.CalleeObj(cl); o != nil && o.Name() == "UnRegister" {
+								return ""
+							}
+						}
+					}
+				}
+				return "a group is removed from the controller's table on a path that did not find it empty: a live group (it owns the route and has members) becomes unreachable for UnRegister"
+			}}, "group removed only when empty")
+		})
+	}
+	c.Floor(n, 2)
 }
